@@ -23,7 +23,7 @@ META["C06"] = {"text": "Adversarial key sets on tiny caches (forced shard collis
 META["C07"] = {"text": "Histories around the hit-for-pass period with bursts left pending together; automaton with one-second tolerance.", "design_ref": "DESIGN.md section 5 C07", "note": _SIMNOTE, "technique": "property-based testing: model-based timed histories (rapid + synctest)"}
 META["C10"] = {"text": "Per-call store fault scripts (errors, missing, truncated/garbled records) injected under generated histories; the store must be invisible to clients.", "design_ref": "DESIGN.md section 5 C10", "note": _SIMNOTE + "; fault store registered through the hook and reached via the real store.NewStore", "technique": "property-based testing with fault injection: generated fault sequences, reference automaton"}
 META["C18"] = {"text": "Histories of requests and purges (named/unnamed/absent) racing fetches on two caches with a store, checked against the automaton and by inspecting the store.", "design_ref": "DESIGN.md section 5 C18", "note": _SIMNOTE, "technique": "property-based testing: model-based histories (rapid + synctest), store inspection"}
-HOOK_COMMITS[:] = ["e850d8f", "dec0189", "5d88526"]
+HOOK_COMMITS[:] = ["e850d8f", "dec0189", "5d88526", "13c1fe9"]
 META["C09"] = {"text": "Structured round trip with behavioural equality (Fill for five Accept-Encoding values), truncation at every offset, and mutation-based robustness (panic, allocation bound, fixed point).", "design_ref": "DESIGN.md section 5 C09", "note": "trusts the hook VerifNewEntry/VerifEntryFields and runtime.MemStats.TotalAlloc as allocation measure (single goroutine)", "technique": "property-based testing: round-trip and metamorphic (fixed point) laws, structured + mutation generators"}
 META["C12"] = {"text": "Inverse laws against reference codecs for all five formats, all levels -1..12, sizes to 1 MiB and ratios to ~250x; mutated streams for robustness.", "design_ref": "DESIGN.md section 5 C12", "note": "reference codecs: Go stdlib gzip, andybalholm/brotli, golang/snappy, klauspost zstd, pierrec lz4 plus an independent lz4 block encoder written in the harness", "technique": "property-based testing: round-trip / differential against reference codecs, mutation fuzzing (rapid)"}
 META["C13"] = {"text": "The decision table is finite: all cells are enumerated in every run and compared with an independent reference table; random bodies multiply each cell.", "design_ref": "DESIGN.md section 5 C13", "note": "reference codecs decode what Fill returns; gzip level 9 of the Go stdlib is the fingerprint of the best-compression profile", "technique": "property-based testing: exhaustive table enumeration with generated bodies, reference table"}
